@@ -279,6 +279,39 @@ def run(tier, replay=None):
             continue
         viol.append({"what": what, "program": src_, "spelling": list(s), "emitted": text, "found": True,
                      "reproduce": f"Compiler(ArchEnum.HEXAGON).compile_c_stmt({src_!r})"})
+    # 2c. a SOURCE-letter operand that is also assigned in the behaviour (its access type changes while the behaviour is
+    # compiled): the emitted text must still declare the operand and every value it reads (Lean's text checkers)
+    import textcheck as _tc
+    srcl = [sp_ for sp_ in letters if sp_[2] in ("s", "t", "u", "v", "ss", "tt", "uu", "vv") and not sp_[3] and sp_ not in set(undefined)]
+    rw_jobs = []
+    for sp_ in srcl:
+        x = sp_text(sp_)
+        other = sp_[1] + ("w" if len(sp_[2]) == 1 else "ww") + "V"
+        dst = sp_[1] + ("d" if len(sp_[2]) == 1 else "dd") + "V"
+        for src_ in ("{ %s = %s; %s = %s; }" % (dst, x, x, other), "{ %s = %s; %s = %s; }" % (x, other, dst, x),
+                     "{ %s = %s + 1; }" % (x, x), "{ if (PuV) { %s = %s; } %s = %s; }" % (x, other, dst, x)):
+            rw_jobs.append((sp_, src_))
+    rw_parsed = rc.parse_programs([j[1] for j in rw_jobs])
+    rc.close_pool()
+    rw_ok = []
+    for (sp_, src_), pr in zip(rw_jobs, rw_parsed):
+        if pr[0] != "ok":
+            continue
+        r = rc.transform_tree(c, pr[1])
+        if r[0] == "ok":
+            rw_ok.append((sp_, src_, r[1]))
+    for (sp_, src_, text), rep in zip(rw_ok, drv.run([sx(["text", Q(t_)]) for _, _, t_ in rw_ok]) if rw_ok else []):
+        d = _tc.parse_report(rep)
+        cnt["source_operand_also_written_probes"] += 1
+        probs = ([] if d.get("parsed") else ["emitted text does not parse"]) + list(d.get("c11") or []) + [p_ for p_ in (d.get("c10") or [])]
+        if probs:
+            what = f"{sp_text(sp_)} read and assigned in one behaviour: " + "; ".join(probs[:3])
+            k = known_match("C07", sp_, what)
+            if k:
+                cnt["known:" + k["id"]] += 1
+            else:
+                viol.append({"what": what, "program": src_, "spelling": list(sp_), "emitted": text, "found": True,
+                             "reproduce": f"Compiler(ArchEnum.HEXAGON).compile_c_stmt({src_!r})"})
     # 2b. two operands in one behaviour (both orders): each keeps its own binding
     defined = [s for s in universe if s not in set(undefined)]
     defset = set(defined)
